@@ -55,7 +55,7 @@ def gen_event(rng, src, idx, tsbase):
 
 def part_events(args, wd, viol, stats):
     from jade.events import EventsSummary, StructuredLogEvent
-    from jade.loggers import log_event, setup_event_logging
+    from jade.loggers import close_event_logging, log_event, setup_event_logging
 
     rng = random.Random(args["seed"])
     hashes, nt = [], []
@@ -71,14 +71,18 @@ def part_events(args, wd, viol, stats):
             evs = [gen_event(rng, f"p{p}", i, "2026-01-02 11:00:00.000001") for i in range(rng.randint(0, 40))]
             # one buffered write per event (as JADE's own events): keep lines <= 4 KB
             evs = [e for e in evs if len(json.dumps(e)) < 3500]
-            plans.append((fn, evs))
+            # like JobRunner._aggregate_events, a process may close its event log in the middle and keep logging afterwards
+            close_at = rng.randrange(len(evs)) if evs and rng.random() < 0.35 else None
+            plans.append((fn, evs, close_at))
         pids = []
-        for fn, evs in plans:
+        for fn, evs, close_at in plans:
             pid = os.fork()
             if pid == 0:
                 try:
                     setup_event_logging(os.path.join(out, fn), mode="a")
-                    for e in evs:
+                    for ei, e in enumerate(evs):
+                        if ei == close_at:
+                            close_event_logging()
                         log_event(StructuredLogEvent(source=e["source"], category=e["category"], name=e["name"], message=e["message"], timestamp=e["timestamp"], **e["data"]))
                     logging.shutdown()
                 finally:
@@ -86,15 +90,16 @@ def part_events(args, wd, viol, stats):
             pids.append(pid)
         for pid in pids:
             os.waitpid(pid, 0)
-        written = [e for _, evs in plans for e in evs]
+        written = [e for _, evs, _c in plans for e in evs]
+        stats["processes_closing_their_log_midway"] = stats.get("processes_closing_their_log_midway", 0) + sum(1 for _, _e, c_ in plans if c_ is not None)
         h = hashlib.sha1(json.dumps(written, sort_keys=True).encode()).hexdigest()[:12]
         hashes.append(h)
-        files = {fn for fn, evs in plans if evs}
+        files = {fn for fn, evs, _c in plans if evs}
         if len(written) >= 10 and nproc >= 2:
             nt.append(h)
         stats["events_written"] = stats.get("events_written", 0) + len(written)
         stats["event_processes"] = stats.get("event_processes", 0) + nproc
-        stats["processes_sharing_a_file"] = stats.get("processes_sharing_a_file", 0) + sum(1 for fn, _ in plans if fn == "submit_jobs_events.log")
+        stats["processes_sharing_a_file"] = stats.get("processes_sharing_a_file", 0) + sum(1 for fn, _e, _c in plans if fn == "submit_jobs_events.log")
 
         def key(e):
             return json.dumps([e["timestamp"], e["source"], e["category"], e["message"], e["data"]], sort_keys=True)
